@@ -25,6 +25,19 @@ open YashModel.Generated.ArithTables
 
 /-! ## `eval.rs` over the `Env` trait -/
 
+/-- why an arithmetic expansion failed: `yash_arith::ErrorCause` (syntax, portability, evaluation incl. the
+    two environment errors) or, before the evaluation, the expansion of an unset parameter in the text under
+    `set -u`.  `convert_error_cause` maps each to one `ErrorCause` of the shell; the harness reads that cause
+    from the message.  (`modelPanic` is never produced: `evalStr_never_panics`.) -/
+inductive ShErr where
+  | syntax (e : SynErr)
+  | portability
+  | eval (e : EvalErr)
+  | unsetParameter
+  | modelPanic
+  | badCase
+  deriving DecidableEq, Repr
+
 structure EnvI (σ : Type) where
   /-- `get_variable`: `Ok(Some v)`, `Ok(None)` or `Err` (= `.error .getVariableError`) -/
   get : σ → Name → Res (Option (List Char))
@@ -142,14 +155,17 @@ def evalValueG (ast : List Ast) (s : σ) : Res (Int × σ) :=
   (evalG I ast.length ast s).bind fun (t, s1) =>
   (intoValueG I t s1).bind fun v => .ok (v, s1)
 
-/-- `eval_with_config(expression, &mut env, Config::default())`: `none` = any error -/
-def evalStrG (src : List Char) (s : σ) : Option (Int × σ) :=
+/-- `eval_with_config(expression, &mut env, config)` with the cause of a failure (`ErrorCause`) -/
+def evalStrG (portable : Bool) (src : List Char) (s : σ) : Except ShErr (Int × σ) :=
   match parse src with
-  | .error _ => none
+  | .error e => .error (.syntax e)
   | .ok ast =>
+    if portable && ast.any isIncDec then .error .portability else
     match evalValueG I ast s with
-    | .ok r => some r
-    | _ => none
+    | .ok r => .ok r
+    | .error e => .error (.eval e)
+    | .panic => .error .modelPanic
+    | .fuel => .error .modelPanic
 
 end G
 
@@ -178,6 +194,8 @@ structure Store where
   ctxs : List Ctx
   /-- `set -u` (the `Unset` option is off) -/
   nounset : Bool
+  /-- `set -o portable` -/
+  portable : Bool := false
   deriving Repr
 
 def Ctx.find (c : Ctx) (name : Name) : Option SVar :=
@@ -239,6 +257,7 @@ inductive CtxKind where
 
 structure Scenario where
   nounset : Bool
+  portable : Bool
   globals : Ctx
   kind : CtxKind
   /-- declared by `typeset` at the start of the function -/
@@ -257,43 +276,90 @@ def textOf (st : Store) (name : Name) : Option (List Char) :=
   | some ⟨.array l, _⟩ => some ((l.intersperse [' ']).flatten)
   | _ => none
 
-/-- `expand_text` on the expression, for the forms the harness writes: `$name` and `${name}`;
-    `none` = the expansion of an unset variable under `set -u` -/
-def substText (st : Store) : Nat → List Char → Option (List Char)
-  | 0, _ => none
-  | _, [] => some []
-  | f + 1, '$' :: '{' :: rest =>
+/-- the text between `$((` and the matching `))` and what follows -/
+def splitArith : Nat → List Char → List Char → Option (List Char × List Char)
+  | _, [], _ => none
+  | 0, ')' :: ')' :: rest, acc => some (acc.reverse, rest)
+  | 0, ')' :: _, _ => none
+  | d, '(' :: rest, acc => splitArith (d + 1) rest ('(' :: acc)
+  | d + 1, ')' :: rest, acc => splitArith d rest (')' :: acc)
+  | d, c :: rest, acc => splitArith d rest (c :: acc)
+
+/-- the two command substitutions the harness writes: `$(echo N)` and `$(echo N; st K)`:
+    output (trailing newline removed) and exit status of the subshell -/
+def cmdSubst (cmd : List Char) : Option (List Char × Nat) :=
+  let words (s : List Char) : List (List Char) :=
+    ((String.ofList s).splitOn " ").filterMap fun w => if w.isEmpty then none else some w.toList
+  match ((String.ofList cmd).splitOn ";").map (fun p => words p.toList) with
+  | [[e, n]] => if e = "echo".toList then some (n, 0) else none
+  | [[e, n], [s, k]] =>
+    if e = "echo".toList ∧ s = "st".toList then (String.ofList k).toNat?.map fun k => (n, k) else none
+  | _ => none
+
+mutual
+/-- `expand_text` on the expression (`initial::arith::expand` starts with it), for the forms the harness
+    writes: `$name`, `${name}`, `$(echo N)`, `$(echo N; st K)` and nested `$(( … ))` — the nested expansion
+    is carried out (with its side effects on the variables) before the outer text is evaluated.
+    The `Nat` threaded along is the exit status of the last command substitution so far
+    (`last_command_subst_exit_status`). -/
+def substText : Nat → Store → Nat → List Char → Except ShErr (List Char × Store × Nat)
+  | 0, _, _, _ => .error .modelPanic
+  | _, st, status, [] => .ok ([], st, status)
+  | f + 1, st, status, '$' :: '(' :: '(' :: rest =>
+    match splitArith 0 rest [] with
+    | none => .error .badCase
+    | some (inner, after) =>
+      match expandArith f st status inner with
+      | .error e => .error e
+      | .ok (v, st1, status1) =>
+        (substText f st1 status1 after).map fun (t, st2, s2) => (showInt v ++ t, st2, s2)
+  | f + 1, st, _, '$' :: '(' :: rest =>
+    match cmdSubst (rest.takeWhile (· ≠ ')')) with
+    | none => .error .badCase
+    | some (out, k) =>
+      (substText f st k ((rest.dropWhile (· ≠ ')')).drop 1)).map fun (t, st2, s2) => (out ++ t, st2, s2)
+  | f + 1, st, status, '$' :: '{' :: rest =>
     let name := rest.takeWhile (· ≠ '}')
     let after := (rest.dropWhile (· ≠ '}')).drop 1
     match textOf st name with
-    | some v => (substText st f after).map (v ++ ·)
-    | none => if st.nounset then none else substText st f after
-  | f + 1, '$' :: rest =>
+    | some v => (substText f st status after).map fun (t, st2, s2) => (v ++ t, st2, s2)
+    | none => if st.nounset then .error .unsetParameter else substText f st status after
+  | f + 1, st, status, '$' :: rest =>
     let name := rest.takeWhile isTermChar
     let after := rest.dropWhile isTermChar
-    if name.isEmpty then (substText st f rest).map ('$' :: ·)
+    if name.isEmpty then (substText f st status rest).map fun (t, st2, s2) => ('$' :: t, st2, s2)
     else
       match textOf st name with
-      | some v => (substText st f after).map (v ++ ·)
-      | none => if st.nounset then none else substText st f after
-  | f + 1, c :: rest => (substText st f rest).map (c :: ·)
+      | some v => (substText f st status after).map fun (t, st2, s2) => (v ++ t, st2, s2)
+      | none => if st.nounset then .error .unsetParameter else substText f st status after
+  | f + 1, st, status, c :: rest => (substText f st status rest).map fun (t, st2, s2) => (c :: t, st2, s2)
 
-/-- the expansions of a body, one output line each; `none` in the last component = an expansion failed -/
-def runBody (st : Store) : List (List Char) → List (List Char) × Option Store
-  | [] => ([], some st)
+/-- `initial::arith::expand`: expand the text, evaluate it with the shell's environment -/
+def expandArith : Nat → Store → Nat → List Char → Except ShErr (Int × Store × Nat)
+  | 0, _, _, _ => .error .modelPanic
+  | f + 1, st, status, text =>
+    match substText f st status text with
+    | .error e => .error e
+    | .ok (t, st1, status1) =>
+      match evalStrG shellI st1.portable t st1 with
+      | .error e => .error e
+      | .ok (v, st2) => .ok (v, st2, status1)
+end
+
+/-- the expansions of a body, one output line each (value text and the exit status a command made only of
+    this expansion would have); an error in the last component = that expansion failed -/
+def runBody (st : Store) : List (List Char) → List (List Char × Nat) × Except ShErr Store
+  | [] => ([], .ok st)
   | e :: rest =>
-    match substText st (e.length + 1) e with
-    | none => ([], none)
-    | some text =>
-      match evalStrG shellI text st with
-      | none => ([], none)
-      | some (v, st1) =>
-        let r := runBody st1 rest
-        (showInt v :: r.1, r.2)
+    match expandArith (2 * e.length + 4) st 0 e with
+    | .error err => ([], .error err)
+    | .ok (v, st1, status) =>
+      let r := runBody st1 rest
+      ((showInt v, status) :: r.1, r.2)
 
 inductive Line where
-  /-- value of an expansion (one field) -/
-  | value (s : List Char)
+  /-- value of an expansion (one field) and the exit status of its last command substitution -/
+  | value (s : List Char × Nat)
   /-- fields of `"${name-U}"` -/
   | fields (l : List (List Char))
   deriving Repr
@@ -305,6 +371,8 @@ structure Outcome2 where
   lines : List Line
   /-- `none` = the shell exited at a failing expansion -/
   final : Option Ctx
+  /-- the cause of the (only) failing expansion, if any — also when it only ended a subshell -/
+  err : Option ShErr := none
   deriving Repr
 
 def pushLocals (st : Store) (locals : Ctx) : Store := { st with ctxs := locals :: st.ctxs }
@@ -313,42 +381,43 @@ def baseCtx (st : Store) : Ctx := st.ctxs.getLast?.getD []
 
 /-- what the rendered script prints and leaves behind -/
 def runScenario (names : List Name) (sc : Scenario) : Outcome2 :=
-  let st0 : Store := { ctxs := [sc.globals], nounset := sc.nounset }
+  let st0 : Store := { ctxs := [sc.globals], nounset := sc.nounset, portable := sc.portable }
   match sc.kind with
   | .top =>
     let (vals, r) := runBody st0 sc.exprs
     match r with
-    | none => ⟨vals.map .value, none⟩
-    | some st1 => ⟨vals.map .value ++ printAll names st1, some (baseCtx st1)⟩
+    | .error e => ⟨vals.map .value, none, some e⟩
+    | .ok st1 => ⟨vals.map .value ++ printAll names st1, some (baseCtx st1), none⟩
   | .fn =>
     let (vals, r) := runBody (pushLocals st0 sc.locals) sc.exprs
     match r with
-    | none => ⟨vals.map .value, none⟩
-    | some st1 =>
+    | .error e => ⟨vals.map .value, none, some e⟩
+    | .ok st1 =>
       let st2 := popCtx st1
-      ⟨vals.map .value ++ printAll names st1 ++ printAll names st2, some (baseCtx st2)⟩
+      ⟨vals.map .value ++ printAll names st1 ++ printAll names st2, some (baseCtx st2), none⟩
   | .nest =>
     -- `g` runs in its own (empty) context on top of `f`'s
     let (vals, r) := runBody (pushLocals (pushLocals st0 sc.locals) []) sc.exprs
     match r with
-    | none => ⟨vals.map .value, none⟩
-    | some st1 =>
+    | .error e => ⟨vals.map .value, none, some e⟩
+    | .ok st1 =>
       let st2 := popCtx st1
       let st3 := popCtx st2
       ⟨vals.map .value ++ printAll names st1 ++ printAll names st2 ++ printAll names st3,
-        some (baseCtx st3)⟩
+        some (baseCtx st3), none⟩
   | .sub =>
     let (vals, r) := runBody st0 sc.exprs
     let inner := match r with
-      | none => vals.map Line.value
-      | some st1 => vals.map .value ++ printAll names st1
-    ⟨inner ++ printAll names st0, some (baseCtx st0)⟩
+      | .error _ => vals.map Line.value
+      | .ok st1 => vals.map .value ++ printAll names st1
+    ⟨inner ++ printAll names st0, some (baseCtx st0), match r with | .error e => some e | .ok _ => none⟩
   | .fnsub =>
     let stf := pushLocals st0 sc.locals
     let (vals, r) := runBody stf sc.exprs
     let inner := match r with
-      | none => vals.map Line.value
-      | some st1 => vals.map .value ++ printAll names st1
-    ⟨inner ++ printAll names stf ++ printAll names st0, some (baseCtx st0)⟩
+      | .error _ => vals.map Line.value
+      | .ok st1 => vals.map .value ++ printAll names st1
+    ⟨inner ++ printAll names stf ++ printAll names st0, some (baseCtx st0),
+      match r with | .error e => some e | .ok _ => none⟩
 
 end YashModel.Arith
